@@ -789,3 +789,39 @@ def rename_private_functions(root: str) -> None:
 
 
 V("V201", "six functions renamed consistently in the whole package (anchors of many rules)", transform="rename_private_functions")
+
+V("V202", "if/elif chains on string-valued options written as match statements (find_drivers strategy, node kinds of the fixed-point encoder)",
+  edits=[(CTRL, """    if strategy == "internal":
+        driver_pool = set(target_trap_space_inner) - forbidden_drivers
+    elif strategy == "all":
+        driver_pool = set(bn.network_variable_names()) - forbidden_drivers
+    else:
+        raise ValueError("Unknown driver search strategy")
+""", """    match strategy:
+        case "internal":
+            driver_pool = set(target_trap_space_inner) - forbidden_drivers
+        case "all":
+            driver_pool = set(bn.network_variable_names()) - forbidden_drivers
+        case _:
+            raise ValueError("Unknown driver search strategy")
+"""),
+         (TRAP, """        if kind == "place":
+            continue
+        elif kind == "transition":
+            preds = list(petri_net.predecessors(node))  # type: ignore
+
+            pred_rhs = "; ".join(preds)  # type: ignore
+            ctl.add("base", [], f":- {pred_rhs}.")
+        else:
+            raise Exception(f"Unexpected node kind: `{kind}`.")
+""", """        match kind:
+            case "place":
+                continue
+            case "transition":
+                preds = list(petri_net.predecessors(node))  # type: ignore
+
+                pred_rhs = "; ".join(preds)  # type: ignore
+                ctl.add("base", [], f":- {pred_rhs}.")
+            case _:
+                raise Exception(f"Unexpected node kind: `{kind}`.")
+""")])
